@@ -43,7 +43,7 @@ checks = {
    text="in every state: locator for max 1,2,3,10,50 and the verify-only locator are checked for membership, order, start at tip-1, length, duplicates; protocol-conformant peers on every accepted tip (and 1-2 headers ahead) are simulated and their first reply header is submitted to the real repository",
    note=A_NOTE + "; synthetic split table at heights 2/3 and the real mainnet table on base chains", tech=A_TECH),
  "C02": dict(engine="powenum", cat="exploration", ref="DESIGN.md 6, 7 C02",
-   text="three complete finite spaces through the real code: (1) Branch.Target on real Branch objects (root and fork branches straddling either median window) for all 3^6 order/tie patterns of the six headers that matter x 8 time-span classes x bits patterns, compared with a reference implementation of the network's 144-block algorithm; (2) every exponent byte 0..255 x 11 mantissas through ProcessHeader and HandleHeadersMessage: no panic for any encoding, refusal whenever the hash exceeds a well-defined target (incl. zero targets); (3) both real mainnet fixture chains (incl. the 556767 split) accepted with difficulty checking on, and 15 single-field mutations of every header in a window refused with the right error class",
+   text="three complete finite spaces through the real code: (1) Branch.Target on real Branch objects (root and fork branches straddling either median window) for all 3^6 order/tie patterns of the six headers that matter x 11 time-span classes (incl. more than 2^31 s apart) x bits patterns, compared with a reference implementation of the network's 144-block algorithm; (2) every exponent byte 0..255 x 11 mantissas through ProcessHeader and HandleHeadersMessage: no panic for any encoding, refusal whenever the hash exceeds a well-defined target (incl. zero targets); (3) both real mainnet fixture chains (incl. the 556767 split) accepted with difficulty checking on, and 15 single-field mutations of every header in a window refused with the right error class",
    note="no mining: a header meeting a small target cannot be constructed, so the accept side rests on the real chain; negative/overflowing encodings only need to not crash; reference DAA/compact codec in /verif/ref written from the published node algorithm",
    tech="bounded-exhaustive enumeration of finite input spaces on the implementation against a reference (exhaustive: true)"),
  "C03": dict(engine="hdrmc+netmc", cat="model_checking", ref="DESIGN.md 3, 5, 7 C03",
